@@ -161,17 +161,19 @@ Section Aggregator.
                (append (ETest is_section name doc (has_expectfail ps) [] false) docd st)
          end.
 
-  (* drop a leading double quote, then a trailing one (value[1:], value[:-1]);
-     None = IndexError on an empty string *)
+  (* a value that starts and ends with a double quote (length >= 2) loses that surrounding pair
+     (value[1:-1]); anything else stays as written.  Never fails (kept as an option for the
+     callers' sake). *)
   Definition unquote (v : str) : option str :=
     match v with
-    | [] => None
     | a :: r =>
-        let v1 := if (a =? 34)%N then r else v in
-        match last_opt v1 with
-        | None => None
-        | Some z => Some (if (z =? 34)%N then drop_last v1 else v1)
-        end
+        if (a =? 34)%N
+        then match last_opt r with
+             | Some z => if (z =? 34)%N then Some (drop_last r) else Some v
+             | None => Some v
+             end
+        else Some v
+    | [] => Some v
     end.
 
   (* process_set *)
